@@ -389,6 +389,13 @@ func vdrCase(c *Ctx, focus string) {
 		if !vol {
 			continue
 		}
+		if in.Outs == nil {
+			// the model could not follow this instance to its outputs (an interrupted
+			// run whose split was killed after it had written its chunk definitions):
+			// what it retains or returns is unknown
+			c.Res.Probes["instance-outputs-unknown"]++
+			continue
+		}
 		c.Res.Probes["volatile-files"]++
 		if t, err := filepath.EvalSymlinks(p); err == nil && strings.HasPrefix(t, path.Join(r.PsDir, "outs")+"/") {
 			// post-processing moved the file to outs/ and left a link behind: it is
